@@ -180,6 +180,44 @@ pub fn regions(f: Func) -> Vec<Region> {
     }
 }
 
+
+pub type WideRegion = (&'static str, Box<dyn Fn(&mut Rng) -> f64>);
+
+/// Wide bands (DESIGN 7.7): arguments far from the moderate regions but still such that the fourth
+/// powers of |x| and 1/|x| are representable (f64: 1e-30..1e30, f32: 1e-9..1e9) and, for the
+/// exponentially growing functions, up to where the function value itself approaches the float
+/// range.  Cases in which a contributing term leaves the float range are skipped by the caller.
+pub fn wide_regions(f: Func, f32: bool) -> Vec<WideRegion> {
+    let (lo, hi) = if f32 { (1e-9, 1e9) } else { (1e-30, 1e30) };
+    let (emax, e2max) = if f32 { (85.0, 120.0) } else { (700.0, 1000.0) };
+    let both = move |a: f64, b: f64| -> Box<dyn Fn(&mut Rng) -> f64> { Box::new(move |r: &mut Rng| r.sign() * r.logu(a, b)) };
+    let posr = move |a: f64, b: f64| -> Box<dyn Fn(&mut Rng) -> f64> { Box::new(move |r: &mut Rng| r.logu(a, b)) };
+    let lin = move |a: f64, b: f64| -> Box<dyn Fn(&mut Rng) -> f64> { Box::new(move |r: &mut Rng| r.sign() * r.range(a, b)) };
+    match f {
+        Func::Recip => vec![("wide:tiny", both(lo, 1e-3)), ("wide:huge", both(1e4, hi))],
+        Func::Sqrt => vec![("wide:tiny", posr(lo, 0.05)), ("wide:huge", posr(1e6, hi))],
+        Func::Cbrt => vec![("wide:tiny", both(lo, 0.05)), ("wide:huge", both(1e5, hi))],
+        Func::Exp | Func::ExpM1 => vec![("wide:far", lin(20.0, emax))],
+        Func::Exp2 => vec![("wide:far", lin(20.0, e2max))],
+        Func::Ln | Func::Log(_) | Func::Log2 | Func::Log10 => vec![("wide:tiny", posr(lo, 0.05)), ("wide:huge", posr(1e6, hi))],
+        Func::Ln1p => vec![("wide:huge", posr(100.0, hi)), ("wide:near-1", Box::new(|r: &mut Rng| -1.0 + r.logu(1e-3, 0.1)))],
+        Func::Sin | Func::Cos => vec![("wide:huge", both(50.0, if f32 { 1e4 } else { 1e8 }))],
+        Func::Tan => vec![(
+            "wide:many-periods",
+            Box::new(move |r: &mut Rng| {
+                let k = r.int(-100000, 100000) as f64 * if f32 { 0.01 } else { 1.0 };
+                k.round() * std::f64::consts::PI + r.range(-1.45, 1.45)
+            }),
+        )],
+        Func::Asin | Func::Acos | Func::Atanh => vec![("wide:near-end", lin(0.9, 0.99))],
+        Func::Atan | Func::Asinh => vec![("wide:huge", both(1e3, hi)), ("wide:tiny", both(lo, 0.05))],
+        Func::Sinh | Func::Cosh => vec![("wide:far", lin(10.0, emax)), ("wide:tiny", both(lo, 1e-9))],
+        Func::Tanh => vec![("wide:far", lin(15.0, emax)), ("wide:tiny", both(lo, 0.05))],
+        Func::Acosh => vec![("wide:huge", posr(100.0, hi)), ("wide:near-1", Box::new(|r: &mut Rng| 1.0 + r.logu(0.02, 0.1)))],
+        _ => vec![],
+    }
+}
+
 /// Model value and magnitude sums (slot convention) of f applied to an exact operand, with an
 /// explicit majorant rule: `gm(k, g_k)` gives the error scale of the k-th Taylor coefficient.
 pub fn model_point(
